@@ -10,12 +10,14 @@ use bincode::{
 use hashbrown::HashMap;
 use regex::Regex;
 
+#[cfg_attr(vibrato_verif, derive(Clone))]
 #[derive(Debug, Decode, Encode)]
 enum FeatureType {
     Index(usize),
     CharacterType,
 }
 
+#[cfg_attr(vibrato_verif, derive(Clone))]
 #[derive(Debug, Decode, Encode)]
 struct ParsedTemplate {
     raw_template: String,
@@ -23,6 +25,7 @@ struct ParsedTemplate {
     captures: Vec<(Range<usize>, FeatureType)>,
 }
 
+#[cfg_attr(vibrato_verif, derive(Clone))]
 pub struct FeatureExtractor {
     pub unigram_feature_ids: HashMap<String, NonZeroU32>,
     pub left_feature_ids: HashMap<String, NonZeroU32>,
